@@ -164,9 +164,12 @@ def _loop_part(g, case, res, add, residual, D, u, beta, gamma):
         pf.solvePDE(ref, eq)
         return np.asarray(ref.value, dtype=float).copy(), kap
 
-    for akind in ("default", "scalar", "ndarray", "cellvar"):
+    akinds = ["default", "scalar", "ndarray", "cellvar"]
+    if g.d > 1:     # layered media: alpha varies along one axis only (constant along the first / along the last axis)
+        akinds += ["cellvar_layered_last", "cellvar_layered_first"]
+    for akind in akinds:
         acts = list(itertools.product(ALPHA_ACTIONS, repeat=2)) if akind == "cellvar" else [("keep", "keep"), ("replace", "edit")]
-        if akind == "default":
+        if akind == "default" or akind.startswith("cellvar_layered"):
             acts = [("keep", "keep")]
         for (act1, act2) in acts:
             for dpat in DT_PATTERNS:
@@ -178,6 +181,8 @@ def _loop_part(g, case, res, add, residual, D, u, beta, gamma):
                         alpha = 1.5
                     elif akind == "ndarray":
                         alpha = a0.copy()
+                    elif akind.startswith("cellvar_layered"):
+                        alpha = pf.CellVariable(g.mesh, 0.5 + U.layered_array(g.dims, g.d - 1 if akind.endswith("last") else 0, tag=427) / 8.0)
                     else:
                         alpha = pf.CellVariable(g.mesh, a0.copy())
                     eqlist = None
